@@ -18,7 +18,8 @@ impl Transform for Slice {
             to = str.len();
         }
 
-        str[from..to].to_string()
+        // from may be after to, or inside a multi-byte character
+        str.get(from..to).unwrap_or_default().to_string()
     }
 }
 
